@@ -126,6 +126,43 @@ def make_probe(ss):
     return PregProbe
 
 
+def direct_state_probes(ctx, ss, viol):
+    states = {'fecund': dict(fecund=True, pregnant=False, postpartum=False), 'pregnant': dict(fecund=False, pregnant=True, postpartum=False), 'postpartum': dict(fecund=False, pregnant=False, postpartum=True)}
+    def fresh():
+        sim = ss.Sim(n_agents=40, demographics=ss.Pregnancy(fertility_rate=0), dur=6, dt=1.0, rand_seed=1, verbose=0); sim.init()
+        sim.run(until=sim.t.yearvec[2])
+        return sim, sim.demographics.pregnancy
+    def one(p, u): return sum(int(bool(getattr(p, f).raw[u])) for f in FLAGS)
+    for sname, st in states.items():
+        # update_states: the four truth assignments of (delivery due, post-partum over)
+        for due in (True, False):
+            for over in (True, False):
+                sim, p = fresh(); ti = int(p.ti)
+                m = int(np.asarray(sim.people.female.uids)[0]); U = ss.uids([m])
+                for f, v in st.items(): getattr(p, f)[U] = v
+                p.ti_delivery[U] = ti - 1 if due else ti + 5; p.ti_postpartum[U] = ti - 1 if over else ti + 5; p.ti_dead[U] = np.nan
+                p.update_states()
+                ctx.count(('direct', 'update_states', sname, due, over), nontrivial=True); ctx.dist('direct-state probe')
+                if one(p, m) != 1:
+                    viol(f'Pregnancy.update_states on a {sname} woman (delivery due: {due}, post-partum over: {over}) leaves her in {one(p, m)} of the states fecund/pregnant/postpartum', dict(probe='update_states', state=sname, due=due, over=over))
+        # finish_step: her unborn / just-born child (age slightly below zero) dies at this step
+        sim, p = fresh(); ppl = sim.people; ti = int(p.ti)
+        m = int(np.asarray(ppl.female.uids)[0]); U = ss.uids([m])
+        c = int(np.asarray(ppl.auids)[-1]) if int(np.asarray(ppl.auids)[-1]) != m else int(np.asarray(ppl.auids)[-2]); C = ss.uids([c])
+        for f, v in st.items(): getattr(p, f)[U] = v
+        ppl.parent[C] = m; p.child_uid[U] = c; ppl.age[C] = -1.5e-8; ppl.ti_dead[C] = ti
+        p.finish_step()
+        ctx.count(('direct', 'finish_step', sname), nontrivial=True); ctx.dist('direct-state probe')
+        if one(p, m) != 1:
+            viol(f'Pregnancy.finish_step on a {sname} woman whose child (age just below zero) dies at this step leaves her in {one(p, m)} of the states fecund/pregnant/postpartum', dict(probe='finish_step', state=sname))
+    # set_prognoses on a fecund woman
+    sim, p = fresh(); m = int(np.asarray(sim.people.female.uids)[0]); U = ss.uids([m])
+    for f, v in states['fecund'].items(): getattr(p, f)[U] = v
+    p.set_prognoses(U)
+    ctx.count(('direct', 'set_prognoses'), nontrivial=True)
+    if one(p, m) != 1 or not bool(p.pregnant.raw[m]): viol('Pregnancy.set_prognoses on a fecund woman does not leave her exactly pregnant', dict(probe='set_prognoses'))
+
+
 def configs(ss, rng, n):
     out = []
     asfr = pd.DataFrame([dict(Time=y, AgeGrp=a, ASFR=v + (y - 1990)) for y in (1990, 2030) for a, v in ((10, 0), (15, 120), (20, 300), (30, 250), (40, 60), (50, 0))])
@@ -276,6 +313,12 @@ def run(ctx):
             t0 = max(ts)
             aterms.append(f'({qlit(F(repr(meta["gest"])))}, ({t0})%Z, {qlit(F(repr(meta["dt"])) if abs(meta["dt"] * 12 - round(meta["dt"] * 12)) > 1e-9 or meta["dt"] in (1.0, 0.5, 0.25) else F(round(meta["dt"] * 12), 12))}, {qlit(e["age"])})')
             ameta.append(dict(W, **e, conceived=t0))
+    # ---------------------------------------------------------------- direct-state probes: every valid state x every truth assignment of the time tests,
+    # realised on a real Pregnancy module and pushed through the real method (the concrete counterpart of the exhaustive check of the model)
+    try:
+        direct_state_probes(ctx, ss, viol)
+    except Exception as E:
+        ctx.violation(f'direct-state probe raised {type(E).__name__}: {E}', dict(probe='direct-state'))
     # ---------------------------------------------------------------- Coq
     ctx.cov['replayed_in_coq'] = dict(flag_calls=len(sterms), conceptions=len(cterms), deliveries=len(dterms))
     okdef = '''From Coq Require Import String.
